@@ -626,6 +626,7 @@ func (c *Canonicalizer) renamerFunc() loop.Renamer {
 
 	var renamer loop.Renamer
 	renamer = func(v ssa.Value) string {
+		verifCountRenamer()
 		if depth >= MaxRenamerDepth {
 			return "<depth-limit>"
 		}
